@@ -319,4 +319,64 @@ ExpectedAsRefs(inp, p) ==
   LET h == BaseObjects(inp, p, <<>>, 8)
   IN {[ty |-> h[i].ty, path |-> h[i].path] : i \in {j \in DOMAIN h : \A k \in DOMAIN h : k # j => h[k].ty # h[j].ty}}
 
+(* ------------------------- C10: the resolvability oracle ---------------- *)
+AllDefsOf(inp) == UNION {{<<mi, di>> : di \in DOMAIN inp.mods[mi].defs} : mi \in DOMAIN inp.mods}
+PathOfDefIn(inp, x) == Join(inp.mods[x[1]].path, inp.mods[x[1]].defs[x[2]].name)
+
+RECURSIVE TyNames(_)
+TyNames(ty) == CASE ty.k = "nm" -> {ty.n}
+                 [] ty.k \in {"unk", "none"} -> {}
+                 [] OTHER -> TyNames(ty.t)
+
+RECURSIVE ByValueNames(_)
+ByValueNames(ty) == CASE ty.k = "nm" -> {ty.n}
+                      [] ty.k = "arr" -> ByValueNames(ty.t)
+                      [] OTHER -> {}
+
+(* names a definition mentions in fields (or as enum base)                 *)
+FieldTypes(d) == IF d.k = "enum" THEN {d.base} ELSE {d.fields[i].ty : i \in DOMAIN d.fields}
+FnTypes(m, d) ==
+  LET fs == ImplFuncs(m, d.name) \o (IF d.k = "type" THEN d.vft.funcs ELSE <<>>)
+  IN UNION {{fs[i].args[j].ty : j \in {k \in DOMAIN fs[i].args : fs[i].args[k].k = "named"}} \cup
+            (IF fs[i].ret = TNone THEN {} ELSE {fs[i].ret}) : i \in DOMAIN fs}
+
+BoundIn(inp, m, ty) == \A n \in TyNames(ty) : Bind(inp, m, n) # <<>>
+
+(* least fix-point: a definition is resolvable when the names in its       *)
+(* fields exist and everything it embeds by value is resolvable            *)
+ResolvableStep(inp, S) ==
+  S \cup {x \in AllDefsOf(inp) :
+            LET m == inp.mods[x[1]]
+                d == m.defs[x[2]]
+            IN /\ \A ty \in FieldTypes(d) : BoundIn(inp, m, ty)
+               /\ \A ty \in FieldTypes(d) : \A n \in ByValueNames(ty) :
+                     LET b == Bind(inp, m, n)
+                     IN DefAt(inp, b) = <<0, 0>> \/ DefAt(inp, b) \in S}
+RECURSIVE Lfp(_, _, _)
+Lfp(inp, S, fuel) == IF fuel = 0 \/ ResolvableStep(inp, S) = S THEN S ELSE Lfp(inp, ResolvableStep(inp, S), fuel - 1)
+ResolvableDefsOf(inp) == Lfp(inp, {}, Cardinality(AllDefsOf(inp)) + 2)
+UnresolvablePathsOf(inp) == {PathOfDefIn(inp, x) : x \in AllDefsOf(inp) \ ResolvableDefsOf(inp)}
+
+FnNamesDefinedIn(inp) ==
+  \A x \in AllDefsOf(inp) : \A ty \in FnTypes(inp.mods[x[1]], inp.mods[x[1]].defs[x[2]]) :
+     BoundIn(inp, inp.mods[x[1]], ty)
+EvalNamesDefinedIn(inp) ==
+  \A mi \in DOMAIN inp.mods : \A i \in DOMAIN inp.mods[mi].evals : BoundIn(inp, inp.mods[mi], inp.mods[mi].evals[i].ty)
+
+ResolvableIn(inp) == AllDefsOf(inp) = ResolvableDefsOf(inp) /\ FnNamesDefinedIn(inp) /\ EvalNamesDefinedIn(inp)
+
+(* --------------------------- known findings ---------------------------- *)
+(* the generated <T>Vftable names exist only once T's attempt has reached  *)
+(* the vftable step, so an input that mentions one is schedule dependent   *)
+GeneratedNamesOf(inp) ==
+  UNION {{inp.mods[mi].defs[i].name \o "Vftable" :
+            i \in {j \in TypeDefsOf(inp.mods[mi]) : inp.mods[mi].defs[j].vft.has}}
+         : mi \in DOMAIN inp.mods}
+MentionsGeneratedIn(inp) ==
+  \E x \in AllDefsOf(inp) :
+     LET m == inp.mods[x[1]]
+         d == m.defs[x[2]]
+     IN \E ty \in FieldTypes(d) \cup FnTypes(m, d) : TyNames(ty) \cap GeneratedNamesOf(inp) # {}
+
+
 =============================================================================
